@@ -33,6 +33,18 @@ def bounds(rec, kind, what, q, dmd, w, T, cap, rho1, rho_max, zero_at_jam, witne
         rec.violation(f"{PROP}:{what}:{kind}: flow not finite under the preconditions", witness)
         return
     rec.count("bound_evaluations")
+    if math.isinf(dmd):  # an inexhaustible supply (saturated origin): only the capacity / space limits bind, the queue only grows
+        rec.count("bound_evaluations_with_infinite_demand")
+        scale = 1.0 + abs(w) / T + abs(cap)
+        if q < -TOL * scale:
+            rec.violation(f"{PROP}:{what}:{kind}: flow negative", witness)
+        if q > cap + TOL * scale:
+            rec.violation(f"{PROP}:{what}:{kind}: flow exceeds capacity", witness)
+        if zero_at_jam and rho1 == rho_max:
+            rec.count("jam_evaluations")
+            if abs(q) > TOL * scale:
+                rec.violation(f"{PROP}:{what}:{kind}: flow not zero at maximum density", witness)
+        return
     scale = 1.0 + abs(dmd) + abs(w) / T + abs(cap)
     if q < -TOL * scale:
         rec.violation(f"{PROP}:{what}:{kind}: flow negative", witness)
@@ -66,7 +78,7 @@ def dec_ramp(kind, args, kwargs, res, rec):
     except Exception:
         return
     if not (w >= 0 and d >= 0 and 0 <= r <= 1 and 0 <= r1 <= rmax and C >= 0 and rmax > rc > 0 and T > 0
-            and all(map(math.isfinite, (d, w, C, r, rmax, r1, rc, T)))):
+            and all(map(math.isfinite, (w, C, r, rmax, r1, rc, T))) and not math.isnan(d)):
         rec.count("precondition_not_met")
         return
     bounds(rec, kind, f"metered[{eq}]", _f(res), d, w, T, C, r1, rmax, True,
@@ -84,7 +96,7 @@ def dec_simple(kind, args, kwargs, res, rec):
     except Exception:
         return
     if not (w >= 0 and d >= 0 and qd >= 0 and 0 <= r1 <= rmax and C >= 0 and rmax > rc > 0 and T > 0
-            and all(map(math.isfinite, (d, w, C, rmax, r1, rc, T))) and not math.isnan(qd)):
+            and all(map(math.isfinite, (w, C, rmax, r1, rc, T))) and not math.isnan(qd) and not math.isnan(d)):
         rec.count("precondition_not_met")
         return
     bounds(rec, kind, "simplified[limited]", _f(res), d, w, T, C, r1, rmax, True,
@@ -101,7 +113,7 @@ def dec_main(kind, args, kwargs, res, rec):
     except Exception:
         return
     if not (w >= 0 and d >= 0 and vc >= 0 and v1 >= 0 and rc > 0 and 1.0 <= aa <= 3.5 and vf > 0 and lam > 0 and T > 0
-            and all(map(math.isfinite, (d, w, v1, rc, aa, vf, lam, T))) and not math.isnan(vc)):
+            and all(map(math.isfinite, (w, v1, rc, aa, vf, lam, T))) and not math.isnan(vc) and not math.isnan(d)):
         rec.count("precondition_not_met")
         return
     cap = lam * vf * math.exp(-1.0 / aa) * rc
@@ -196,6 +208,8 @@ def corner_calls(M, rec, rng, reps):
         # demand chosen to sit below, at or above the active capacity
         capnow = C * spacefrac
         d = rng.choice((0.0, capnow, max(0.0, capnow - w / T), rng.uniform(0, 2 * C), rng.uniform(0, 50)))
+        if rng.random() < 0.08:
+            d = math.inf  # a saturated origin with an inexhaustible supply (also with the ramp closed, r = 0)
         which = rng.choice(("ramp", "ramp", "simple", "main"))
         rec.count("corner_calls")
         s1 = s
@@ -220,6 +234,8 @@ def corner_calls(M, rec, rng, reps):
             vc = rng.choice((math.inf, 0.0, v1, Vc, rng.uniform(0, 2 * vf), 0.05 * vf))
             qcap = lam * Vc * rc
             dm = rng.choice((0.0, qcap, rng.uniform(0, 2 * qcap), max(0.0, qcap - w / T)))
+            if math.isinf(d):
+                dm = math.inf
             E.OriginsEngine.get_mainstream_flow(s(dm), s(w), s(vc), s(v1), rc, a, vf, lam, T)
 
 
@@ -344,7 +360,13 @@ def ensemble_steps(M, rec, rng, sm, reps):
             rho_max, rho_crit, v_free, a = 180.0, round(rng.uniform(28.0, 38.0), 1), round(rng.uniform(90.0, 120.0), 1), round(rng.uniform(1.4, 2.4), 3)
             lam = rng.choice((1, 2, 3))
             nodes = [sm_.Node(name=f"EN{j}") for j in range(nl + 1)]
-            links = [sm_.Link(1, lam, 1.0, rho_max, rho_crit, v_free, a, name=f"EL{j}") for j in range(nl)]
+            # (an uncertain jam / critical density: one value per scenario, a (K,) array, on some links)
+            per_scen = [rng.random() < 0.5 for _ in range(nl)]
+            rmax_l = [np.array([round(rng.uniform(160.0, 195.0), 1) for _ in range(K)]) if per_scen[j] else rho_max for j in range(nl)]
+            rcrit_l = [np.array([round(rng.uniform(26.0, 39.0), 1) for _ in range(K)]) if per_scen[j] else rho_crit for j in range(nl)]
+            links = [sm_.Link(1, lam, 1.0, rmax_l[j], rcrit_l[j], v_free, a, name=f"EL{j}") for j in range(nl)]
+            if any(per_scen):
+                rec.count("ensemble_steps_with_per_scenario_link_parameters")
             # (a mainstream origin does not accept ensembles on the unchanged tree: its speed-limit branch needs one truth value)
             kinds = [(("ramp", "in"), ("ramp", "out"), ("simple", "limited"))[(i + j) % 3] for j in range(nl)]
             origins = []
@@ -370,12 +392,11 @@ def ensemble_steps(M, rec, rng, sm, reps):
             ic = {}
             decl = []
             for j in range(nl):
-                rho = np.array([[rng.choice((rho_max, rho_max, rng.uniform(5.0, rho_crit), rng.uniform(rho_crit, rho_max))) for _ in range(K)]])
-                if all(x == rho[0, 0] for x in rho[0]):
-                    rho[0, -1] = rng.uniform(5.0, rho_crit)
-                rng_first = list(range(K))
-                rng.shuffle(rng_first)
-                rho = rho[:, rng_first]
+                rm_ = np.broadcast_to(np.asarray(rmax_l[j], float), (K,))
+                rc_ = np.broadcast_to(np.asarray(rcrit_l[j], float), (K,))
+                rho = np.array([[rng.choice((rm_[k_], rm_[k_], rng.uniform(5.0, rc_[k_]), rng.uniform(rc_[k_], rm_[k_]))) for k_ in range(K)]])
+                if all(rho[0, k_] == rm_[k_] for k_ in range(K)):
+                    rho[0, -1] = rng.uniform(5.0, rc_[-1])
                 v = np.array([[rng.uniform(1.0, v_free) for _ in range(K)]])
                 ic[links[j]] = {"rho": rho.copy(), "v": v.copy()}
                 w = np.array([rng.choice((0.0, rng.uniform(0.0, 60.0))) for _ in range(K)])
@@ -389,7 +410,7 @@ def ensemble_steps(M, rec, rng, sm, reps):
                 else:
                     o["v_ctrl"] = np.array([rng.choice((500.0, rng.uniform(20.0, v_free))) for _ in range(K)])
                 ic[origins[j]] = o
-                decl.append((rho, v, w, d))
+                decl.append((rho, v, w, d, rm_))
             pars = dict(T=10 / 3600, tau=18 / 3600, eta=60.0, kappa=40.0, delta=0.0122, phi=1.8)
             T = pars["T"]
             try:
@@ -401,7 +422,7 @@ def ensemble_steps(M, rec, rng, sm, reps):
                 continue
             rec.count("ensemble_steps")
             for j, (kind, eq) in enumerate(kinds):
-                rho, v, w, d = decl[j]
+                rho, v, w, d, rm_ = decl[j]
                 wn = wn_all[j]
                 if wn.shape != (K,):
                     rec.violation(f"{PROP}:ensemble:{kind}[{eq}]: next queue does not hold one value per scenario", {"K": K, "shape": list(wn.shape)})
@@ -412,7 +433,7 @@ def ensemble_steps(M, rec, rng, sm, reps):
                     scale = 1.0 + d[k_] + w[k_] / T + cap
                     tol = 1e-7 * scale
                     wit = {"K": K, "scenario": k_, "origin": f"{kind}[{eq}]", "rho_first_declared": rho[0].tolist(), "w": w.tolist(), "d": d.tolist(),
-                           "w_next": wn.tolist(), "inferred_flow": q, "capacity": cap, "rho_max": rho_max}
+                           "w_next": wn.tolist(), "inferred_flow": q, "capacity": cap, "rho_max": rm_.tolist()}
                     rec.count("ensemble_origin_evaluations")
                     rec.count("network_origin_evaluations")
                     if wn[k_] < -TOL * (1 + w[k_] + T * d[k_]):
@@ -423,7 +444,7 @@ def ensemble_steps(M, rec, rng, sm, reps):
                         rec.violation(f"{PROP}:ensemble:{kind}[{eq}]: admitted flow exceeds capacity", wit)
                     if q > d[k_] + w[k_] / T + tol:
                         rec.violation(f"{PROP}:ensemble:{kind}[{eq}]: admitted flow exceeds demand plus queue", wit)
-                    if kind != "main" and rho[0, k_] == rho_max:
+                    if kind != "main" and rho[0, k_] == rm_[k_]:
                         rec.count("jam_evaluations")
                         if abs(q) > tol:
                             rec.violation(f"{PROP}:ensemble:{kind}[{eq}]: admitted flow not zero at maximum density", wit)
